@@ -20,7 +20,7 @@ Definition depth_fuel (lines : list str) : nat := S (S (fold_left (fun m l => Na
 
 (* the block phase of a whole document: parse buffer, footnotes *)
 Definition block_phase (cfg : pconfig) (lines : list str) : list pre * footnotes :=
-  let '(es, _, st) := tokenize_block (cfg_block cfg) (depth_fuel lines) lines 1 (mkPs [] true) in (es, ps_fn st).
+  let '(es, _, _) := tokenize_block (cfg_block cfg) (depth_fuel lines) lines 1 (mkPs true) in (es, footnotes_of es).
 
 (* Document(lines) for prepared lines *)
 Definition parse_lines (cfg : pconfig) (lines : list str) : tok * footnotes * list Z :=
